@@ -108,3 +108,93 @@ check_aliasing = function(
   bindings=CB, props=('C08',))
 check_aliasing.locals = {'node_msgs': Msgs, 'unique_prefixes': SetOf(AxisV), 'paths_prefixes': PPs}
 check_aliasing.comp_elem_hint = PP
+
+# ---- autodiff._grad_general: which positions are differentiated, in which order, with which filter -----------------------
+AD = 'flax/nnx/transforms/autodiff.py'
+GFilter = opaque('GradFilter', is_str=False)
+ArgItem = Union('ArgnumItem', [Ctor('IInt', [('n', INT)], pytypes=('int',), payload='n'),
+                               Ctor('IDiff', [('argnum', INT), ('filter', GFilter)], pytypes=('DiffState',))])
+ArgItems = SeqOf(ArgItem)
+Argnums = Union('Argnums', [Ctor('AInt', [('n', INT)], pytypes=('int',), payload='n'),
+                            Ctor('ADiff', [('argnum', INT), ('filter', GFilter)], pytypes=('DiffState',)),
+                            Ctor('ASeq', [('items', ArgItems)], pytypes=('tuple', 'list', 'Sequence'), payload='items')])
+ArgItem.coerce_from = {'Argnums': lambda ex, v: SV(ArgItem, z3.If(Argnums.is_('AInt', v.t), ArgItem.mk('IInt', Argnums.acc('AInt', 'n', v.t)),
+                                                                    ArgItem.mk('IDiff', Argnums.acc('ADiff', 'argnum', v.t), Argnums.acc('ADiff', 'filter', v.t))))}
+DiffRec = Union('DiffStateRec', [Ctor('DiffStateRec', [('argnum', INT), ('filter', GFilter)], pytypes=('DiffState',))])
+IndexFilter = MapOf(INT, DiffRec)
+JaxArgnums = Union('JaxArgnums', [Ctor('JInt', [('n', INT)], pytypes=('int',), payload='n'), Ctor('JTuple', [('items', SeqOf(INT))], pytypes=('tuple',), payload='items')])
+PARAM_FILTER = GlobalVar('variablelib.Param', GFilter)
+AnyFn = opaque('UserFunction', is_str=False)
+
+
+def _replace(ex, a, kw):
+  """dataclasses.replace(diff_state, argnum=-1)"""
+  v = ex.deref(a[0])
+  U = v.sort
+  ctor = 'IDiff' if U.name == 'ArgnumItem' else 'ADiff'
+  return SV(DiffRec, DiffRec.mk('DiffStateRec', ex.coerce(kw['argnum'], INT).t, U.acc(ctor, 'filter', v.t)))
+
+
+def _diffstate(ex, a, kw):
+  return SV(DiffRec, DiffRec.mk('DiffStateRec', ex.coerce(a[0], INT).t, ex.coerce(a[1], GFilter).t))
+
+
+def _update_context(ex, a, kw):
+  """graph.update_context('grad') applied to grad_wrapper: at this point the closure captures jax_argnums and
+  index_filter; record what it captures"""
+  def deco(ex2, aa, kk):
+    env = ex2._cur_env
+    ja = ex2.deref(env.lookup('jax_argnums'))
+    if isinstance(ja, SV) and isinstance(ja.sort, SeqOf) and ja.sort.elem.name == 'ArgnumItem':
+      # a tuple of plain ints represented as int-items: read the ints (an element that is not an int-item reads as an arbitrary int)
+      from pyvc.sorts import fresh_name, qforall
+      IS = SeqOf(INT)
+      r = IS.const('argnums_as_ints')
+      i = z3.Int(fresh_name('i'))
+      ex2.assume(IS.len(r) == ja.sort.len(ja.t))
+      ex2.assume(qforall([i], z3.Implies(z3.And(i >= 0, i < IS.len(r), ArgItem.is_('IInt', ja.sort.get(ja.t, i))), IS.get(r, i) == ArgItem.acc('IInt', 'n', ja.sort.get(ja.t, i))), patterns=[IS.get(r, i)]))
+      ja = SV(JaxArgnums, JaxArgnums.mk('JTuple', r))
+    ex2.ghost['jax_argnums'] = ex2.coerce(ja, JaxArgnums)
+    ex2.ghost['index_filter'] = ex2.deref(env.lookup('index_filter'))
+    return aa[0]
+  return Handler('update_context(tag)', deco, 'decorator: identity on the function; records the captured locals')
+
+
+GB = {
+  'jax.value_and_grad': TypeTag('jax.value_and_grad'), 'jax.grad': TypeTag('jax.grad'),
+  'DiffState': Handler('DiffState', _diffstate, 'DiffState(argnum, filter): a record'),
+  'dataclasses.replace': Handler('dataclasses.replace', _replace, 'replace(diff_state, argnum=...)'),
+  'variablelib.Param': PARAM_FILTER,
+  'graph.update_context': Handler('graph.update_context', _update_context, 'decorator factory'),
+}
+GB['DiffState'].tagname = 'DiffState'
+ITEM_ARGNUM = lambda e: f"({e}.n if is_({e}, 'IInt') else {e}.argnum)"
+ITEM_FILTER = lambda e: f"(variablelib.Param if is_({e}, 'IInt') else {e}.filter)"
+IT = 'argnums.items'
+grad_general = function(
+  AD + '::_grad_general',
+  params=[('f', AnyFn), ('argnums', Argnums), ('has_aux', BOOL), ('holomorphic', BOOL), ('allow_int', BOOL), ('return_value', BOOL)],
+  returns=ANY,
+  raises={'ValueError': f"is_(argnums, 'ASeq') and exists(Int, Int, lambda i, j: 0 <= i and i < j and j < len({IT}) and {ITEM_ARGNUM(IT + '[i]')} == {ITEM_ARGNUM(IT + '[j]')})"},
+  ensures=[
+    # a single argnum is differentiated as given
+    "implies(is_(argnums, 'AInt'), is_(ghost('jax_argnums'), 'JInt') and ghost('jax_argnums').n == argnums.n)",
+    "implies(is_(argnums, 'ADiff'), is_(ghost('jax_argnums'), 'JInt') and ghost('jax_argnums').n == argnums.argnum)",
+    # a sequence: the i-th differentiated position is the i-th requested one (so the i-th gradient belongs to the i-th request)
+    f"implies(is_(argnums, 'ASeq'), is_(ghost('jax_argnums'), 'JTuple') and len(ghost('jax_argnums').items) == len({IT}) and "
+    f"forall(Int, lambda i: implies(0 <= i and i < len({IT}), ghost('jax_argnums').items[i] == {ITEM_ARGNUM(IT + '[i]')})))",
+    # every requested position has the filter it was requested with (Param for a bare int), and no other position has one
+    f"implies(is_(argnums, 'ASeq'), forall(Int, lambda i: implies(0 <= i and i < len({IT}), {ITEM_ARGNUM(IT + '[i]')} in ghost('index_filter') and "
+    f"ghost('index_filter')[{ITEM_ARGNUM(IT + '[i]')}].filter == {ITEM_FILTER(IT + '[i]')} and ghost('index_filter')[{ITEM_ARGNUM(IT + '[i]')}].argnum == -1)))",
+    f"implies(is_(argnums, 'ASeq'), forall(Int, lambda k: implies(k in ghost('index_filter'), exists(Int, lambda i: 0 <= i and i < len({IT}) and {ITEM_ARGNUM(IT + '[i]')} == k))))",
+    "implies(is_(argnums, 'AInt'), forall(Int, lambda k: (k in ghost('index_filter')) == (k == argnums.n)) and ghost('index_filter')[argnums.n].filter == variablelib.Param)",
+    "implies(is_(argnums, 'ADiff'), forall(Int, lambda k: (k in ghost('index_filter')) == (k == argnums.argnum)) and ghost('index_filter')[argnums.argnum].filter == argnums.filter)",
+  ],
+  invariants={0: [
+    f"forall(Int, lambda i: implies(0 <= i and i < _k, {ITEM_ARGNUM('_at(i)')} in index_filter and index_filter[{ITEM_ARGNUM('_at(i)')}].filter == {ITEM_FILTER('_at(i)')} and index_filter[{ITEM_ARGNUM('_at(i)')}].argnum == -1))",
+    f"forall(Int, lambda k: implies(k in index_filter, exists(Int, lambda i: 0 <= i and i < _k and {ITEM_ARGNUM('_at(i)')} == k)))",
+    f"forall(Int, Int, lambda i, j: implies(0 <= i and i < j and j < _k, {ITEM_ARGNUM('_at(i)')} != {ITEM_ARGNUM('_at(j)')}))",
+  ]},
+  bindings=GB, props=('C08',))
+grad_general.locals = {'index_filter': IndexFilter, '_argnums': ArgItems}
+grad_general.dict_hint = IndexFilter
